@@ -169,6 +169,13 @@ class SpecEval:
         out = []
         for op, rn in zip(node.ops, node.comparators):
             right = self.eval(rn, env)
+            if isinstance(op, (ast.Eq, ast.NotEq)) and left.e is not None and right.e is not None:
+                # in a SPECIFICATION an equality between values of unrelated types is a slip of the author (it would silently be False and,
+                # as an invariant or a callee postcondition, make everything after it vacuously provable): refuse it
+                try:
+                    ops.unify(left, right)
+                except Unsupported:
+                    raise Unsupported("specification compares values of unrelated types %s and %s: `%s`" % (left.t, right.t, ast.unparse(node)[:120]))
             out.append(ops.compare(type(op).__name__, left, right))
             left = right
         return SV(ty.Bool, out[0] if len(out) == 1 else z3.And(*out))
